@@ -1,12 +1,12 @@
-\* design check, longer histories, start symbol inside the vocabulary
+\* design check, start symbol inside the vocabulary, trigram + unigram contexts
 INIT Init
 NEXT FreeNext
 CONSTANTS
   N = 2
   V = 2
-  L = 3
+  L = 2
   K1 = 2
-  K2 = 1
+  K2 = 0
   SosIn = TRUE
   Depth = 0
   InitLens = {0}
